@@ -545,8 +545,12 @@ Section Handshake.
     g_wpos : 0 <= watch r
   }.
 
+  (* P: the pending controllers, oldest first *)
+  Definition GP (w : world) (pend : Z) (tg : list tag) (P : list Z) : Prop :=
+    exists A, GI (nstorage (wn w)) (learnQ (wn w)) (wr w) (chN w) (chR w) pend tg P A.
+
   Definition G (w : world) (pend : Z) (tg : list tag) : Prop :=
-    exists P A, GI (nstorage (wn w)) (learnQ (wn w)) (wr w) (chN w) (chR w) pend tg P A.
+    exists P, GP w pend tg P.
 
   Lemma G0 : G world0 0 [].
   Proof.
@@ -658,6 +662,32 @@ Proof.
   - destruct ch; reflexivity.
 Qed.
 
+(* ... and of the pending set the records imply (MidiSpec.pending_from) *)
+Definition ou_ids (r : list obs) : list Z := flat_map (fun o => match o with OU i => [i] | _ => [] end) r.
+
+Definition pstep (P : list Z) (ch : list tag) (e : event) (r : list obs) : list Z :=
+  match e with
+  | ECC _ _ _ _ => P ++ ou_ids r
+  | EDelR => match ch with t :: _ => if is_TB t then tl P else P | [] => P end
+  | _ => P
+  end.
+
+Lemma pending_from_step : forall pend P ch e es r rs p' c',
+  qstep pend ch e r = Some (p', c') ->
+  pending_from P ch (e :: es) (r :: rs) = pending_from (pstep P ch e r) c' es rs.
+Proof.
+  intros pend P ch e es r rs p' c' Q. destruct e; cbn [pending_from pstep qstep] in *.
+  1-3: destruct (existsb is_OB r && negb (pend =? count_TBa ch)); [discriminate | inversion Q; reflexivity].
+  - destruct (existsb is_OU r); [destruct (existsb is_TBf ch); [discriminate |] |]; inversion Q; reflexivity.
+  - inversion Q; reflexivity.
+  - destruct ch; inversion Q; reflexivity.
+Qed.
+
+Lemma ou_ids_cc : forall (m : option msg) (used : bool) id,
+  ou_ids (match m with Some x => [OM x] | None => [] end ++ (if used then [OU id] else [])) =
+  if used then [id] else [].
+Proof. intros. destruct m, used; reflexivity. Qed.
+
 Definition out_tags (out : list rmsg) : list tag :=
   map (fun m => match m with RWatch => TW | RUnwatch => TR | RBind _ => TBf end) out.
 
@@ -708,22 +738,22 @@ Section Step.
     existsb is_OB (map obs_of_rmsg a) || existsb is_OB (map obs_of_rmsg b).
   Proof. intros. rewrite map_app, existsb_app. reflexivity. Qed.
 
-  Lemma G_step : forall w pend tg e w' r p' tg',
-    G U w pend tg -> ev_ok U e ->
+  Lemma GP_step : forall w pend tg P e w' r p' tg',
+    GP U w pend tg P -> ev_ok U e ->
     step ports w e = Some (w', r) -> qstep pend tg e r = Some (p', tg') ->
-    pre_ok w e /\ G U w' p' tg'.
+    pre_ok w e /\ GP U w' p' tg' (pstep P tg e r).
   Proof.
-    intros w pend tg e w' r p' tg' [P [A I]] Hev Hs Hq.
+    intros w pend tg P e w' r p' tg' [A I] Hev Hs Hq.
     pose proof (GI_nst_nodup _ _ _ _ _ _ _ _ _ _ I) as Nn.
     pose proof (g_rnodup _ _ _ _ _ _ _ _ _ _ I) as Nr.
-    destruct e; cbn [step] in Hs; cbn [qstep] in Hq.
+    destruct e; cbn [step] in Hs; cbn [qstep] in Hq; cbn [pstep].
     - (* map *)
       split; [repeat split; assumption |].
       unfold nrt_result in Hs. destruct (nrt_map (wn w) a c) as [[n' out] |] eqn:M; [| discriminate].
       inversion Hs; subst w' r; clear Hs. cbn [app] in Hq.
       destruct (existsb is_OB (map obs_of_rmsg out) && negb (pend =? count_TBa tg)) eqn:Q; [discriminate |].
       inversion Hq; subst p' tg'; clear Hq. rewrite op_tags_out.
-      exists P, A. cbn [wn wr chN chR].
+      exists A. cbn [wn wr chN chR].
       destruct (map_fact _ _ _ _ _ M Nn) as [[-> ->] | [out0 [-> [LQ S]]]].
       + cbn. rewrite !app_nil_r. exact I.
       + rewrite LQ. unfold out_tags. rewrite map_app, !app_assoc. cbn [map].
@@ -736,7 +766,7 @@ Section Step.
       inversion Hs; subst w' r; clear Hs. cbn [app] in Hq.
       destruct (existsb is_OB (map obs_of_rmsg out) && negb (pend =? count_TBa tg)) eqn:Q; [discriminate |].
       inversion Hq; subst p' tg'; clear Hq. rewrite op_tags_out.
-      exists P, A. cbn [wn wr chN chR].
+      exists A. cbn [wn wr chN chR].
       destruct (unmap_fact _ _ _ _ _ M Nn) as [LQ S]. rewrite LQ.
       apply G_op with (nst := nstorage (wn w)); assumption.
     - (* clear *)
@@ -747,7 +777,7 @@ Section Step.
       destruct (Z.eqb_spec pend (count_TBa tg)) as [E | E]; [| discriminate]. cbn [negb] in Hq.
       inversion Hq; subst p' tg'; clear Hq.
       rewrite op_tags_clear.
-      exists P, A. cbn [wn wr chN chR nstorage learnQ].
+      exists A. cbn [wn wr chN chR nstorage learnQ].
       apply GI_clear with (nst := nstorage (wn w)); try assumption.
       eapply GI_cn_nil; eassumption.
     - (* CC *)
@@ -758,7 +788,7 @@ Section Step.
       destruct (handleCC_fact _ _ _ _ _ _ H) as [Hm [Hf Ht]].
       assert (EU : existsb is_OU (match m with Some x => [OM x] | None => [] end ++ (if used then [OU id] else [])) = used).
       { destruct m, used; reflexivity. }
-      rewrite EU in Hq. destruct used.
+      rewrite EU in Hq. rewrite ou_ids_cc. destruct used.
       + destruct (Ht eq_refl) as [-> [Hnot [Hhas [Hw0 [Hins Hw]]]]].
         destruct (existsb is_TBf tg) eqn:ETB; [discriminate |].
         inversion Hq; subst p' tg'; clear Hq.
@@ -771,7 +801,7 @@ Section Step.
           pose proof (NoDup_incl_length N2 I2) as L. cbn [length] in L. unfold zlen. lia. }
         destruct (pq_insert_spec _ _ id g_rep0) as [q' [Eq Rq]]; try assumption; try lia.
         rewrite Hins in Eq. inversion Eq; subst q'; clear Eq.
-        exists (P ++ [id]), A. cbn [wn wr chN chR].
+        exists A. cbn [wn wr chN chR].
         constructor.
         * assumption.
         * unfold zlen in *. rewrite app_length. cbn. lia.
@@ -795,7 +825,7 @@ Section Step.
         * assumption.
         * lia.
       + destruct (Hf eq_refl) as [Hp Hw]. inversion Hq; subst p' tg'; clear Hq.
-        exists P, A. cbn [wn wr chN chR]. destruct I.
+        rewrite app_nil_r. exists A. cbn [wn wr chN chR]. destruct I.
         constructor; try assumption; try (rewrite Hm; assumption); try (rewrite Hp; assumption);
           try (rewrite Hw; assumption).
     - (* deliver to nRT *)
@@ -803,7 +833,7 @@ Section Step.
       destruct (chN w) as [| id rest] eqn:EN.
       + split; [repeat split; assumption |].
         inversion Hs; subst w' r; clear Hs. cbn [ans_tags flat_map app]. rewrite app_nil_r.
-        exists P, A. rewrite EN. exact I.
+        exists A. rewrite EN. exact I.
       + destruct I.
         assert (HinP : In id P) by (rewrite g_P0; apply in_app_iff; right; left; reflexivity).
         assert (Fresh : ~ In id (mids (omap (nstorage (wn w))))).
@@ -822,7 +852,7 @@ Section Step.
         inversion Hs; subst w' r; clear Hs.
         destruct (useFreeID_fact _ _ _ _ _ _ _ _ LQ UF Fresh Nn) as [s' [-> [Hst [Hlq [Hincl Hnd]]]]].
         cbn [map obs_of_rmsg app ans_tags flat_map hd_error].
-        exists P, (A ++ [id]). cbn [wn wr chN chR]. rewrite Hst, Hlq.
+        exists (A ++ [id]). cbn [wn wr chN chR]. rewrite Hst, Hlq.
         constructor; try assumption.
         * rewrite g_P0, <- app_assoc. reflexivity.
         * apply chain_app; [assumption | auto |].
@@ -839,20 +869,20 @@ Section Step.
       + assert (HH : tg = [] /\ A = []) by (inversion g_chain0; auto). destruct HH as [-> ->].
         inversion Hs; subst w' r; clear Hs.
         inversion Hq; subst p' tg'; clear Hq.
-        exists ([] ++ chN w), []. rewrite ER. constructor; try assumption. reflexivity.
+        exists []. rewrite ER. constructor; try assumption. reflexivity.
       + destruct (rt_deliver (wr w) m) as [r' |] eqn:D; [| discriminate].
         inversion Hs; subst w' r; clear Hs. cbn [wn wr chN chR].
         inversion g_chain0 as [| ? ? tgr ? C | ? ? tgr ? C | ? s ? tgr ? Hi Hn C | ? s id ? tgr A' Hi Hn C]; subst.
         * (* add-watch *)
           inversion Hq; subst p' tg'; clear Hq. cbn [is_TB andb].
           cbn [rt_deliver] in D. inversion D; subst r'; clear D.
-          exists (A ++ chN w), A. cbn [rstorage pending watch] in *.
+          exists A. cbn [rstorage pending watch] in *.
           constructor; try assumption; cbn [wn wr chN chR rstorage pending watch]; try assumption; try lia; try reflexivity.
         * (* remove-watch *)
           inversion Hq; subst p' tg'; clear Hq. cbn [is_TB andb].
           cbn [rt_deliver] in D. inversion D; subst r'; clear D.
           cbn [wsim] in g_watch0. destruct (Z.ltb_spec 0 (watch (wr w))) as [Hw | Hw]; [| discriminate].
-          exists (A ++ chN w), A. cbn [rstorage pending watch] in *.
+          exists A. cbn [rstorage pending watch] in *.
           constructor; try assumption; cbn [wn wr chN chR rstorage pending watch]; try assumption; try reflexivity.
           -- destruct (Z.eqb_spec (watch (wr w)) 0); [lia | assumption].
           -- eapply trok_tail; eassumption.
@@ -868,7 +898,7 @@ Section Step.
           rewrite HN in *. cbn [app] in *.
           rewrite (pq_pop_nil _ g_rep0) in Hpop. inversion Hpop as [Hp].
           cbn [zlen length Z.of_nat]. cbn [is_TB andb]. rewrite Z.ltb_irrefl.
-          exists [], []. cbn [wn wr chN chR]. cbn [lastm] in g_last0. cbn [wsim] in g_watch0.
+          exists []. cbn [wn wr chN chR]. cbn [lastm] in g_last0. cbn [wsim] in g_watch0.
           constructor; try assumption; try (rewrite <- Hp; assumption); try (rewrite Hm; assumption);
             try (rewrite Hw; assumption); try reflexivity;
             try (intros x _ []); try (eapply trok_tail; eassumption); try (intros _; reflexivity);
@@ -883,13 +913,23 @@ Section Step.
             by (unfold zlen; cbn [length]; lia).
           inversion Hq; subst p' tg'; clear Hq.
           inversion g_nodup0 as [| ? ? Hni Nd]; subst.
-          exists (A' ++ chN w), A'. cbn [wn wr chN chR]. cbn [lastm] in g_last0. cbn [wsim] in g_watch0.
+          exists A'. cbn [wn wr chN chR]. cbn [lastm] in g_last0. cbn [wsim] in g_watch0.
           constructor; try assumption; try (rewrite Hm; assumption); try (rewrite Hw; assumption); try reflexivity.
           -- inversion g_pos0; assumption.
           -- intros x Hx. apply g_inU0. right. exact Hx.
           -- rewrite Hm. intros x Hx Hin. apply Hi in Hx. destruct Hx as [<- | Hx].
              ++ contradiction.
              ++ apply (g_disj0 x Hx). right. exact Hin.
+  Qed.
+
+  Lemma G_step : forall w pend tg e w' r p' tg',
+    G U w pend tg -> ev_ok U e ->
+    step ports w e = Some (w', r) -> qstep pend tg e r = Some (p', tg') ->
+    pre_ok w e /\ G U w' p' tg'.
+  Proof.
+    intros w pend tg e w' r p' tg' [P HG] Hev Hs Hq.
+    destruct (GP_step _ _ _ _ _ _ _ _ _ HG Hev Hs Hq) as [Hpre HG'].
+    split; [exact Hpre | eexists; exact HG'].
   Qed.
 End Step.
 
@@ -953,6 +993,59 @@ Proof.
   inversion Hp; subst. constructor.
   - split; [apply Hi; left; reflexivity | assumption].
   - apply IH; [intros x Hx; apply Hi; right; exact Hx | assumption].
+Qed.
+
+(* the pending set along a nocross history is the one the records imply *)
+Lemma GP_run : forall U ports, (length U <= 32)%nat ->
+  forall evs w pend tg P tr w',
+  GP U w pend tg P -> Forall (ev_ok U) evs ->
+  run ports w evs = (tr, Some w') -> nocross_from pend tg evs tr = true ->
+  exists pend' tg', GP U w' pend' tg' (pending_from P tg evs tr).
+Proof.
+  intros U ports US. induction evs as [| e es IH]; intros w pend tg P tr w2 HG Hev Hr Hq.
+  - cbn [run] in Hr. inversion Hr; subst tr w2. exists pend, tg. exact HG.
+  - cbn [run] in Hr. destruct (step ports w e) as [[w' o] |] eqn:S; [| discriminate].
+    destruct (run ports w' es) as [tr' fin'] eqn:R. inversion Hr; subst tr fin'; clear Hr.
+    rewrite nocross_from_step in Hq.
+    destruct (qstep pend tg e o) as [[p' tg'] |] eqn:Q; [| discriminate].
+    inversion Hev; subst.
+    destruct (GP_step U US ports _ _ _ _ _ _ _ _ _ HG H1 S Q) as [_ HG'].
+    rewrite (pending_from_step _ _ _ _ _ _ _ _ _ Q).
+    eapply IH; eassumption.
+Qed.
+
+Lemma filter_len_le : forall {X} (f : X -> bool) (l : list X), (length (filter f l) <= length l)%nat.
+Proof. induction l as [| x l IH]; cbn [filter length]; [lia |]. destruct (f x); cbn [length]; lia. Qed.
+
+Lemma GP0 : forall U, GP U world0 0 [] [].
+Proof.
+  intro U. exists []. constructor; cbn; try apply pq_rep0; try constructor; try reflexivity; try lia; try tauto.
+  intros x [].
+Qed.
+
+(* In a nocross history over at most 32 distinct controllers the realtime
+   side's pending ring holds, oldest first, exactly the controllers the
+   records imply (MidiSpec.pending_of - what the classifier of the run-time
+   check computes): each once, and they are the controllers whose answering
+   bind is on its way (A, at most one per message in the queue) followed by
+   those whose midi-use-CC is on its way - the controllers "whose answer is
+   outstanding".  The class bind-crosses-use-cc is: this fails for the
+   controller concerned. *)
+Theorem nocross_pending : forall ports evs tr w U,
+  (length U <= 32)%nat -> incl (ccids evs) U -> Forall (fun x => 0 <= x) (ccids evs) ->
+  run ports world0 evs = (tr, Some w) -> nocross evs tr = true ->
+  pq_rep (pending (wr w)) (pending_of evs tr) /\ NoDup (pending_of evs tr) /\
+  exists A, pending_of evs tr = A ++ chN w /\ (length A <= length (chR w))%nat.
+Proof.
+  intros ports evs tr w U US Hi Hp Hr Hq.
+  destruct (GP_run U ports US evs world0 0 [] [] tr w (GP0 U) (ev_ok_all _ _ Hi Hp) Hr Hq)
+    as [pend' [tg' [A I]]].
+  fold (pending_of evs tr) in I. destruct I.
+  split; [assumption |]. split; [assumption |].
+  exists A. split; [assumption |].
+  rewrite <- (chain_len _ _ _ _ g_chain0).
+  pose proof (chain_count _ _ _ _ g_chain0) as C. unfold zlen, count_TBa in C.
+  apply Nat2Z.inj in C. rewrite C. apply filter_len_le.
 Qed.
 
 (* In a nocross history over at most 32 distinct controllers: whenever a
